@@ -48,7 +48,24 @@ def _sig_casei(rep):
     # shared category tokens cache their case-insensitive variant lazily and unsynchronised (and it is owned by whichever regex came first)
     return any('RangeToken::getCaseInsensitiveToken' in f or 'RangeToken::~RangeToken' in f for s in rep['stacks'][:2] for f in s[:3])
 
+_LAZY_GRAMMAR = ('::getContentModel', '::makeContentModel', '::getFormattedContentModel', '::formatContentModel')
+def _sig_contentmodel(rep):
+    # lazily created members of element declarations / complex types inside a shared (locked) grammar, and reads of what they created
+    if rep['kind'] != 'data race' or len(rep['stacks']) < 2: return False
+    hit = lambda s: any(any(n in f for n in _LAZY_GRAMMAR) for f in s[:8])
+    return all(hit(s) or hit(rep['loc']) for s in rep['stacks'][:2]) and any(hit(s) for s in rep['stacks'][:2])
+
+_LAZY_MAP = ('RangeToken::createMap', 'RangeToken::doCreateMap', 'RangeToken::match')
+def _sig_regexmap(rep):
+    if rep['kind'] != 'data race' or len(rep['stacks']) < 2: return False
+    hit = lambda s, n=3: any(any(x in f for x in _LAZY_MAP) for f in s[:n])
+    return all(hit(s) or hit(rep['loc'], 8) for s in rep['stacks'][:2])
+
 KNOWN = {
+    'C17-lockedpool-lazy-contentmodel': dict(sig=_sig_contentmodel, warm='pool', facs=('shared-pool',),
+        what='grammars of a lockPool()ed XMLGrammarPoolImpl create their content models lazily and unsynchronised (ComplexTypeInfo/DTDElementDecl::getContentModel) when parsers in different threads validate with them'),
+    'C17-shared-regex-lazy-map': dict(sig=_sig_regexmap, warm='pool', facs=('shared-pool',),
+        what='RangeToken::match builds fMap lazily and unsynchronised: a pattern facet (RegularExpression) inside a shared locked grammar is matched by two threads'),
     'C17-iskidok-lazy-table': dict(sig=_sig_kidok, warm='kidok', facs=('kidOK',),
         what='data race on the lazily filled function-local static int kidOK[14] in DOMDocumentImpl::isKidOK when two threads do their first DOM insert concurrently'),
     'C17-rangetokenmap-dcl': dict(sig=_sig_rangetoken, warm='rangetoken', facs=('rangetoken:complement',),
@@ -59,6 +76,8 @@ KNOWN = {
         what='RangeToken::getCaseInsensitiveToken caches a token owned by the calling regex in the process-wide category token without synchronisation (data race; use-after-free once that regex is destroyed)'),
 }
 ACTIVE = [
+    'C17-lockedpool-lazy-contentmodel',
+    'C17-shared-regex-lazy-map',
     'C17-iskidok-lazy-table',
     'C17-rangetokenmap-dcl',
     'C17-rangetoken-casei-cache',
@@ -131,9 +150,22 @@ POOLS = {'xsd': {'pool.xsd': POOL_XSD.replace('@PAT@', '[A-Z]{2}[0-9]+')},
          'dtd': {'pool.dtd': POOL_DTD},
          'both': {'pool.dtd': POOL_DTD, 'pool.xsd': POOL_XSD.replace('@PAT@', '[A-Z]{2}[0-9]+')}}
 
+_PX = {'k': 'pparse', 'api': 'sax2', 'feat': 'ns=1;val=1;schema=1;usecached=1;scanner=IG'}
+_PD = {'k': 'pparse', 'api': 'sax2', 'feat': 'ns=1;val=1;usecached=1;scanner=IG', 'ents': {'pool.dtd': POOL_DTD}}
+_WX = [dict(_PX, doc='<p:root xmlns:p="urn:pool" xmlns:o="urn:warm" o:a="1"><p:item n="1" o:b="2">AB12</p:item><p:item>ab</p:item><o:x/></p:root>'),
+       dict(_PX, doc='<p:root xmlns:p="urn:pool" xmlns:o="urn:warm"><o:x/><p:item>AB1</p:item><p:zz/></p:root>'),
+       dict(_PX, doc='<p:root xmlns:p="urn:pool"><p:item>AB1<p:item/></p:item>text</p:root>')]
+_WD = [dict(_PD, doc='<!DOCTYPE droot SYSTEM "pool.dtd"><droot><ditem k="b" id="w1">&pe;</ditem><dy>t<ditem/></dy></droot>'),
+       dict(_PD, doc='<!DOCTYPE droot SYSTEM "pool.dtd"><droot><dx/><ditem/></droot>'),
+       dict(_PD, doc='<!DOCTYPE droot SYSTEM "pool.dtd"><droot><ditem><dx/></ditem><dx>t</dx></droot>'),
+       dict(_PD, doc='<!DOCTYPE droot SYSTEM "pool.dtd"><droot><dy><dx/></dy></droot>')]
+POOL_WARM = {'xsd': _WX, 'xsdcat': _WX, 'dtd': _WD, 'both': _WX + _WD}
+
 def case_bytes(case):
     top = {'n': len(case['threads']), 'seed': str(case['seed']), 'perturb': case['perturb'],
-           'prewarm': ','.join(KNOWN[k]['warm'] for k in case.get('prewarm', []) if k in KNOWN and KNOWN[k]['warm']), 'warmcats': ','.join(CATS)}
+           'prewarm': ','.join(sorted(set(KNOWN[k]['warm'] for k in case.get('prewarm', []) if k in KNOWN and KNOWN[k]['warm']))), 'warmcats': ','.join(CATS)}
+    if case.get('pool'):
+        for i, it in enumerate(POOL_WARM[case['pool']]): top['poolwarm.%d' % i] = enc_req(item_fields(it))
     if case.get('dump'): top['dump'] = 1
     if case.get('pool'):
         for name, text in POOLS[case['pool']].items(): top[name] = text
@@ -152,28 +184,31 @@ def is_xerces_frame(f):
     return '/src/xercesc/' in f and 'xercesc_4_0::' in f
 
 def parse_tsan(stderr):
-    """-> list of reports {kind, text, stacks: [[frame text,...],...], tops: [top xerces frame of each of the first two stacks], xerces: bool}"""
+    """-> list of reports {kind, text, stacks: the two access stacks, loc: allocation stack of the racing location, tops, xerces}"""
     reps = []
-    chunks = stderr.split('==================')
-    for ch in chunks:
+    for ch in stderr.split('=================='):
         m = re.search(r'WARNING: ThreadSanitizer: ([^(\n]+?)\s*\(pid=', ch)
         if not m: continue
         kind = m.group(1).strip()
-        stacks = []; cur = None
+        sections = []; cur = None
         for line in ch.split('\n'):
             fm = _FRAME.match(line)
             if fm:
-                if fm.group(1) == '0' or cur is None:
-                    cur = []; stacks.append(cur)
-                cur.append(fm.group(2))
-            elif line.strip() == '':
+                if cur is not None: cur[1].append(fm.group(2))
+            elif line.startswith('  ') and line.strip():
+                cur = (line.strip(), []); sections.append(cur)
+            elif not line.strip():
                 cur = None
-        xer = any(is_xerces_frame(f) for s in stacks for f in s)
+        acc = [fr for h, fr in sections if re.match(r'(Previous )?(atomic )?(read|write) of size', h, re.I)]
+        if not acc: acc = [fr for h, fr in sections[:2]]
+        loc = [fr for h, fr in sections if h.startswith('Location is heap block')]
+        allst = [fr for h, fr in sections if not h.startswith('Thread T') and not h.startswith('Mutex M')]
+        xer = any(is_xerces_frame(f) for s in allst for f in s)
         tops = []
-        for s in stacks[:2]:
+        for s in acc[:2]:
             xs = [f for f in s if is_xerces_frame(f)]
             if xs: tops.append(xs[0])
-        reps.append({'kind': kind, 'text': ch.strip()[:6000], 'stacks': stacks, 'tops': tops, 'xerces': xer})
+        reps.append({'kind': kind, 'text': ch.strip()[:6000], 'stacks': acc[:2], 'loc': loc[0] if loc else [], 'tops': tops, 'xerces': xer})
     return reps
 
 def classify_report(rep):
@@ -437,10 +472,12 @@ _failed_cache = {}
 def worker(ctx):
     st_ = ctx.stats
     st_.extra['ignored_reports'] = 0; st_.extra['known_reports'] = {}; st_.extra['asan_cases'] = 0
+    def fail(case, detail):          # single raise site (Hypothesis keys failures by origin)
+        raise PropertyFailure(case, detail)
     def prop(case):
         h = xv.sha(case)
         if h in _failed_cache:
-            raise PropertyFailure(case, _failed_cache[h])
+            return fail(case, _failed_cache[h])
         r = run_case(case)
         L, shared = labels_of(case, r['summary'])
         st_.note(h, bool(shared), L)
@@ -461,7 +498,7 @@ def worker(ctx):
             st_.inconclusive += 1; return
         if r['status'] == 'fail':
             _failed_cache[h] = r['detail']
-            raise PropertyFailure(case, r['detail'])
+            return fail(case, r['detail'])
     hyp_run(ctx, case_strategy(ctx.tier), prop, ctx.budget)
 
 def replay(case, ctx):
